@@ -3,7 +3,7 @@ import engine_common as E
 
 VFILES = ["props/C01.v"]
 ASSUMPTIONS = ["the generated grammars are in the valid domain by construction (tools/gen.py wf); the theorem's hypothesis wf is a certificate check (WfCheck.v)"]
-CLASSES = {"ends"}
+CLASSES = {"ends", "hang"}
 
 
 def run(ctx):
